@@ -2,7 +2,7 @@
 from lib import hexs
 
 MODULE = "DtailModel.Props.C12"
-GROUPS = ["C10", "C12", "C03"]
+GROUPS = ["C10", "C12", "C03", "GEN"]
 BINS = True
 LOGGER = "none"
 BUDGET = {"quick": 3000, "thorough": 60000}
@@ -26,6 +26,9 @@ FILES = [b"/var/log/x.log", b"a.log,b.log", b"/tmp/*.log", b"f", b"weird:name=1"
 
 
 def model_case(case, impl):
+    if case.startswith("gen.regex"):
+        from props import gen_tie
+        return gen_tie.regex_model_case(case, impl)
     if case.startswith("c03.e2e"):
         if impl == "regex-error" or impl.count(";") < 2:
             return None
@@ -40,6 +43,8 @@ def model_case(case, impl):
 
 
 def impl_view(case, impl):
+    if case.startswith("gen.regex"):
+        return impl.split("#", 1)[0]
     if case.startswith("c12.select"):
         return impl.split(";", 1)[1] if ";" in impl else impl
     if case.startswith("c03.e2e"):
@@ -99,6 +104,13 @@ CANON = {"c12.roundtrip": _canon}
 
 
 def gen(rng, budget, tier):
+    yield from _gen_c12(rng, budget, tier)
+    # tie G: the translated regex package and the real one on the same expressions / forged wire forms
+    from props import gen_tie
+    yield from gen_tie.gen_regex(rng, 150 if tier == "quick" else 5000)
+
+
+def _gen_c12(rng, budget, tier):
     big = [0, 0, 0, 1, 2, 3, 17, -1, -5, 2147483647, 9223372036854775807, -9223372036854775808]
     for _ in range(budget):
         pat = b"".join(rng.choice(PIECES) for _ in range(rng.choice([0, 1, 1, 2, 3, 5])))
